@@ -267,3 +267,18 @@ void console_process(console_t *c, char d)
 	} while (s == PT_YIELDED);
 }
 
+
+#ifdef LIBRFN_VERIF
+/* Verification hook: restore the command table to its built-in entries so
+ * that independent registration scenarios can be run in one process. Not
+ * part of the API.
+ */
+void console_verif_reset(void);
+void console_verif_reset(void)
+{
+	memset(cmd_table, 0, sizeof(cmd_table));
+	cmd_table[0] = &cmd_echo;
+	cmd_table[1] = &cmd_help;
+	cmd_table[2] = &cmd_unknown;
+}
+#endif
